@@ -34,6 +34,11 @@ static void fsOracleAt(Out &out, const QString &base);
 void fsOracle(Out &out)
 {
     fsOracleAt(out, QDir::cleanPath(QDir::currentPath() + "/fstree"));
+    // what is compiled into the process as Qt resources is outside every document root too
+    out.ora << QString("fs:%1:d:0").arg(hx(QByteArray(":")));
+    out.ora << QString("fs:%1:d:0").arg(hx(QByteArray(":/res")));
+    { QFile ff(":/res/canary.txt"); ff.open(QIODevice::ReadOnly); QByteArray fb = ff.readAll();
+      out.ora << QString("fs:%1:f:%2:%3").arg(hx(QByteArray(":/res/canary.txt"))).arg(fb.size()).arg(fb.isEmpty() ? 0 : int(uchar(fb[0]))); }
 }
 
 static void fsOracleAt(Out &out, const QString &base)
